@@ -103,6 +103,11 @@ def build_lib(sanitize=False):
                     shutil.rmtree(o, ignore_errors=True)
         os.utime(dest)
     link = open(os.path.join(dest, 'link')).read().split() or ['-lxml2', '-lz']
+    # cmake does not always record LIBXML2_LIBRARY / ZLIB_LIBRARY_RELEASE in its cache (config-mode find): complete the line
+    if not any('xml2' in l for l in link):
+        link = ['-lxml2'] + link
+    if not any(l.endswith('libz.so') or l.endswith('libz.a') or l == '-lz' for l in link):
+        link = link + ['-lz']
     xmlinc = open(os.path.join(dest, 'xmlinc')).read().strip() if os.path.exists(os.path.join(dest, 'xmlinc')) else '/usr/include/libxml2'
     if os.path.exists(os.path.join(dest, 'libcellml_debug.a')):
         link = [os.path.join(dest, 'libcellml_debug.a')] + link
